@@ -110,12 +110,12 @@ fn parse_literal(literal: Pair) -> Value {
 
             Value::scalar(trim_quotes.to_owned())
         }
-        Rule::IntegerLiteral => Value::scalar(
-            literal
-                .as_str()
-                .parse::<i64>()
-                .expect("Grammar ensures matches are parseable as integers."),
-        ),
+        // Literals outside the 64-bit range are reported by `invalid_integer_literal`
+        // before they get here; never panic on them.
+        Rule::IntegerLiteral => match literal.as_str().parse::<i64>() {
+            Ok(i) => Value::scalar(i),
+            Err(_) => Value::scalar(literal.as_str().parse::<f64>().unwrap_or(f64::NAN)),
+        },
         Rule::FloatLiteral => Value::scalar(
             literal
                 .as_str()
@@ -130,6 +130,13 @@ fn parse_literal(literal: Pair) -> Value {
         ),
         _ => unreachable!(),
     }
+}
+
+/// Finds an integer literal that does not fit the 64-bit range inside `pair`.
+fn invalid_integer_literal<'a>(pair: &Pair<'a>) -> Option<Pair<'a>> {
+    std::iter::once(pair.clone())
+        .chain(pair.clone().into_inner().flatten())
+        .find(|p| p.as_rule() == Rule::IntegerLiteral && p.as_str().parse::<i64>().is_err())
 }
 
 /// Parses a `Variable` from a `Pair` with a variable.
@@ -238,6 +245,13 @@ fn parse_filter(filter: Pair, options: &Language) -> Result<Box<dyn Filter>> {
 fn parse_filter_chain(chain: Pair, options: &Language) -> Result<FilterChain> {
     if chain.as_rule() != Rule::FilterChain {
         panic!("Expected an expression with filters.");
+    }
+
+    if let Some(literal) = invalid_integer_literal(&chain) {
+        return Err(error_from_pair(
+            literal,
+            "Integer literal is out of range".to_owned(),
+        ));
     }
 
     let mut chain = chain.into_inner();
@@ -995,8 +1009,10 @@ impl<'a> TagToken<'a> {
     /// In this runtime, value refers to either a literal value or a variable.
     pub fn expect_value(mut self) -> TryMatchToken<'a, Expression> {
         match self.unwrap_value() {
-            Ok(t) => TryMatchToken::Matches(parse_value(t)),
-            Err(_) => {
+            Ok(t) if invalid_integer_literal(&t).is_none() => {
+                TryMatchToken::Matches(parse_value(t))
+            }
+            _ => {
                 self.expected.push(Rule::Value);
                 TryMatchToken::Fails(self)
             }
@@ -1032,8 +1048,10 @@ impl<'a> TagToken<'a> {
     /// The value is returned as a `Value`.
     pub fn expect_literal(mut self) -> TryMatchToken<'a, Value> {
         match self.unwrap_literal() {
-            Ok(t) => TryMatchToken::Matches(parse_literal(t)),
-            Err(_) => {
+            Ok(t) if invalid_integer_literal(&t).is_none() => {
+                TryMatchToken::Matches(parse_literal(t))
+            }
+            _ => {
                 self.expected.push(Rule::Literal);
                 TryMatchToken::Fails(self)
             }
@@ -1045,7 +1063,7 @@ impl<'a> TagToken<'a> {
     pub fn expect_range(mut self) -> TryMatchToken<'a, (Expression, Expression)> {
         let token = self.token.clone();
 
-        if token.as_rule() != Rule::Range {
+        if token.as_rule() != Rule::Range || invalid_integer_literal(&token).is_some() {
             self.expected.push(Rule::Range);
             return TryMatchToken::Fails(self);
         }
